@@ -239,6 +239,7 @@ class SimSocket:
         self.sent = 0
         self.recv_hook = recv_hook
         self.fail_next_send = None   # errno to raise once
+        self.send_hook = None        # fn(addr): may raise OSError (injected syscall failure)
         net.bind(addr, name, node, self._on_datagram)
 
     # -- network side
@@ -257,6 +258,8 @@ class SimSocket:
         if self.fail_next_send is not None:
             e, self.fail_next_send = self.fail_next_send, None
             raise OSError(e, "injected")
+        if self.send_hook is not None:
+            self.send_hook(addr)
         self.sent += 1
         self.net.send(self.addr, tuple(addr[:2]), bytes(datagram))
         return len(datagram)
